@@ -111,3 +111,22 @@ def reference_diff(old, new):
     moved = {(oid[i], nid[i]) for i in oid if i in nid and oid[i] != nid[i]}
     modified = {oid[i] for i in oid if i in nid and (old[oid[i]][3], old[oid[i]][4]) != (new[nid[i]][3], new[nid[i]][4])}
     return created, deleted, moved, modified
+
+
+def snapshot_content_error(snap, entries, root=ROOT):
+    """A DirectorySnapshot must contain exactly `entries` ({rel: (kind, ino, dev, mtime, size)}) and hand back, through
+    every accessor, the stat data the stat function returned.  Returns a message or None."""
+    want = {full(r, root) for r in entries}
+    if set(snap.paths) != want:
+        return f"snapshot paths {sorted(snap.paths)} differ from the tree {sorted(want)}"
+    for r, (kind, ino, dev, mtime, size) in entries.items():
+        p = full(r, root)
+        got = {"inode": snap.inode(p), "isdir": snap.isdir(p), "mtime": snap.mtime(p), "size": snap.size(p), "path(inode)": snap.path((ino, dev))}
+        exp = {"inode": (ino, dev), "isdir": kind == "d", "mtime": mtime, "size": size, "path(inode)": p}
+        if got != exp:
+            bad = sorted(k for k in exp if got[k] != exp[k])
+            return f"snapshot accessors of {p}: {', '.join(f'{k} = {got[k]!r} (stat said {exp[k]!r})' for k in bad)}"
+        si = snap.stat_info(p)
+        if si is None or (si.st_ino, si.st_dev, si.st_mtime, si.st_size) != (ino, dev, mtime, size):
+            return f"snapshot.stat_info({p}) = {si!r}, not the stat data of the entry"
+    return None
